@@ -156,7 +156,7 @@ SIG_OWNER = {"C10": "alias:", "C13": "swap2"}
 TRIVIAL_OPS = {"ctor()", "alias-skip", "destroy", "~dtor", "RELOCATE"}
 
 
-def run(prop, tier, extra_args=(), hist_quick=240, hist_thorough=2400, ops=80, crash_owner_fn=None):
+def run(prop, tier, extra_args=(), hist_quick=240, hist_thorough=2400, ops=80, crash_owner_fn=None, any_prop=False):
     """Runs the history engine for all selected configurations. Returns (coverage, violations, inconclusive)."""
     cfgs = select(prop, tier)
     bins = core.build_many([c.spec() for c in cfgs])
@@ -176,10 +176,10 @@ def run(prop, tier, extra_args=(), hist_quick=240, hist_thorough=2400, ops=80, c
                           900, 8) for (c, lo, hi) in jobs]
         for f in futs:
             results.append(f.result())
-    return aggregate(prop, results, extra_args, crash_owner_fn)
+    return aggregate(prop, results, extra_args, crash_owner_fn, any_prop)
 
 
-def aggregate(prop, results, extra_args=(), crash_owner_fn=None):
+def aggregate(prop, results, extra_args=(), crash_owner_fn=None, any_prop=False):
     cells = set()
     cellcount = 0
     hist = calls = 0
@@ -213,7 +213,7 @@ def aggregate(prop, results, extra_args=(), crash_owner_fn=None):
             # a violation of any monitor during an aliased call / a swap2 call also belongs to the property about those calls
             if SIG_OWNER.get(prop) and (v.get("sig") or "").startswith(SIG_OWNER[prop]):
                 props.append(prop)
-            if prop in props:
+            if prop in props or any_prop:
                 viols.append({"key": core.viol_key(v), "detail": v.get("detail"), "cfg": v["cfg"], "seed": v["seed"], "hist": v.get("hist"),
                               "op": v.get("op"), "desc": v.get("desc"), "monitor": v.get("mon"), "sig": v.get("sig"), "args": list(extra_args)})
             else:
@@ -227,7 +227,7 @@ def aggregate(prop, results, extra_args=(), crash_owner_fn=None):
             for pp, pref in SIG_OWNER.items():
                 if (c.get("sig") or "").startswith(pref):
                     owners.add(pp)
-            if prop in owners:
+            if prop in owners or any_prop:
                 viols.append({"key": "crash:%s|%s" % (c["what"], c["sig"]), "detail": c["what"] + " during " + c.get("desc", ""), "cfg": c["cfg"],
                               "seed": c["seed"], "hist": c.get("hist"), "op": c.get("op"), "sig": c.get("sig"), "stderr_tail": c.get("stderr", "")[-1500:],
                               "args": list(extra_args)})
